@@ -4,6 +4,8 @@ import (
 	"bytes"
 	"context"
 	"fmt"
+	"runtime/debug"
+	"sync"
 	"time"
 
 	"go.sia.tech/core/consensus"
@@ -40,6 +42,7 @@ type c08Rig struct {
 	lastReq  proto4.Object
 	seenCall int
 	onChain  bool
+	short    bool // the contract's proof window can open during the run
 }
 
 func newC08Rig(e *sim.Env, inv string) *c08Rig {
@@ -50,7 +53,13 @@ func newC08Rig(e *sim.Env, inv string) *c08Rig {
 		}
 		return simrhp.Pass
 	}))
-	c.contract = c.form(types.Siacoins(20000), types.Siacoins(8000), 120)
+	// 1 run in 4: a contract short enough for the run to reach its proof window
+	dur := uint64(120)
+	if e.Chance(1, 4) {
+		dur = proto4.MinContractDuration + uint64(e.Range(0, 4))
+		c.short = true
+	}
+	c.contract = c.form(types.Siacoins(20000), types.Siacoins(8000), dur)
 	c.committed[c.contract.ID] = c.contract.Revision
 	c.seenCall = len(c.contractor.calls)
 	for i := 0; i < 3; i++ {
@@ -162,11 +171,18 @@ func (c *c08Rig) checkRevision(call contractorCall, expectedCost *types.Currency
 }
 
 // latestAcceptable: the host's latest revision validates as a revision of the on-chain contract.
-func (c *c08Rig) latestAcceptable() {
+//
+// A revision persisted while it could still be confirmed stays the host's
+// latest one after the proof window has opened; only a revision persisted now
+// (fresh) has to be acceptable now.
+func (c *c08Rig) latestAcceptable(fresh bool) {
 	if !c.onChain {
 		return
 	}
 	tip := c.tree.ByID[c.s.cm.Tip().ID]
+	if !fresh && tip.Height+1 >= c.committed[c.contract.ID].ProofHeight {
+		return
+	}
 	el, ok := tip.L.V2FC[c.contract.ID]
 	if !ok {
 		return
@@ -623,8 +639,103 @@ func (c *c08Rig) attempt(op c08Op, mut *renterMutation) (persisted int) {
 	if host := c.committed[c.contract.ID]; !bytes.Equal(gen.Enc(c.contract.Revision), gen.Enc(host)) {
 		e.Violationf("C08.same-revision", op.name, "after %s the renter holds revision %d, the host persisted %d (or content differs)", op.name, c.contract.Revision.RevisionNumber, host.RevisionNumber)
 	}
-	c.latestAcceptable()
+	c.latestAcceptable(commits > 0)
 	return commits
+}
+
+// concurrent issues 2-3 honest RPCs on the same contract at overlapping times:
+// the renter's second message of each exchange is held back for a drawn time,
+// so that another exchange reaches the host while the first one holds (or
+// should hold) the contract. The generic rules are then applied to everything
+// the host tried to persist, in the order it tried.
+func (c *c08Rig) concurrent(ops []c08Op) {
+	e := c.e
+	e.Step()
+	k := e.Range(2, 3)
+	type job struct {
+		op    c08Op
+		start time.Duration
+		err   error
+	}
+	var jobs []*job
+	for i := 0; i < k; i++ {
+		jobs = append(jobs, &job{op: ops[e.Pick(3, 2, 2, 4, 3, 2, 0)], start: time.Duration(i*e.Range(1, 60)) * time.Millisecond})
+	}
+	var delays []time.Duration
+	for i := 0; i < 8; i++ {
+		delays = append(delays, time.Duration(e.Range(0, 150))*time.Millisecond)
+	}
+	var mu sync.Mutex
+	nd := 0
+	c.hook = func(_ int, id types.Specifier, step int, st simrhp.Step, o proto4.Object, raw []byte) simrhp.Action {
+		if raw == nil && st.FromRenter && step > 0 {
+			mu.Lock()
+			d := delays[nd%len(delays)]
+			nd++
+			mu.Unlock()
+			time.Sleep(d)
+		}
+		return simrhp.Pass
+	}
+	var wg sync.WaitGroup
+	var crashed []string
+	for _, j := range jobs {
+		j := j
+		wg.Add(1)
+		go func() {
+			defer wg.Done()
+			defer func() {
+				if r := recover(); r != nil {
+					mu.Lock()
+					crashed = append(crashed, fmt.Sprintf("%v\n%s", r, debug.Stack()))
+					mu.Unlock()
+				}
+			}()
+			time.Sleep(j.start)
+			j.err = j.op.run(c)
+		}()
+	}
+	wg.Wait()
+	c.hook = nil
+	waitQuiet()
+	for _, st := range crashed {
+		if sim.PanicInSUT(st) {
+			e.Violationf("C08.panic", "concurrent-rpc", "an RPC client function panicked during concurrent use: %.1500s", st)
+		}
+		panic("C08 concurrent phase: " + st)
+	}
+	commits := 0
+	var names []string
+	for _, j := range jobs {
+		names = append(names, j.op.name)
+	}
+	for _, call := range c.contractor.calls[c.seenCall:] {
+		if call.revision == nil {
+			continue
+		}
+		if call.err != nil {
+			saved := c.committed[call.id]
+			c.checkRevision(call, nil, nil)
+			c.committed[call.id] = saved
+			e.Violationf("C08.monotone-revisions", "refused-by-contractor", "during concurrent %v the server handed the contractor revision %d which it refused: %v", names, call.revision.RevisionNumber, call.err)
+		}
+		commits++
+		c.checkRevision(call, nil, nil)
+		if call.method == "ReviseV2Contract" {
+			c.model = append([]types.Hash256(nil), call.roots...)
+		}
+	}
+	c.seenCall = len(c.contractor.calls)
+	e.Logf("concurrent %v -> host persisted %d revision(s)", names, commits)
+	e.Shape("concurrent", fmt.Sprint(len(jobs)), fmt.Sprint(commits))
+	e.Fault("concurrent-rpcs-on-one-contract")
+	if commits >= 2 {
+		e.Probe("concurrent_both_committed")
+	}
+	e.Nontrivial = true
+	c.resync()
+	c.checkHandlerPanics("concurrent RPCs")
+	c.latestAcceptable(commits > 0)
 }
 
 // cloneObj copies a message via its encoding.
@@ -675,7 +786,20 @@ func runC08(e *sim.Env) {
 			mut = &m
 		}
 		c.attempt(op, mut)
-		switch e.Pick(12, 1, 1, 1) {
+		if e.Chance(1, 8) {
+			c.concurrent(ops)
+		}
+		late := 0
+		if c.short && c.onChain {
+			late = 1
+		}
+		switch e.Pick(12, 1, 1, 1, late) {
+		case 4: // the proof window opens: from now on no revision is acceptable to consensus
+			if h := c.s.cm.Tip().Height; h < c.contract.Revision.ProofHeight {
+				c.mine(int(c.contract.Revision.ProofHeight - h))
+				c.refreshPrices()
+				e.Fault("proof-window-opened")
+			}
 		case 1: // the price table expires
 			time.Sleep(c.priceValidity + time.Second)
 			e.Fault("clock-price-table-expired")
@@ -696,9 +820,9 @@ func runC08(e *sim.Env) {
 func init() {
 	register(&Prop{
 		ID: "C08", Run: runC08, Quick: 300, Thorough: 8000, Level: "exploration",
-		Rule:        "one run = a formed contract and 10-40 renter RPCs (fund accounts, replenish accounts, replenish pools, append, free, sector roots, latest revision) issued by the real client through a typed relay that, for 2 in 5 of them, corrupts one field of a renter->host message (contract id, challenge signature, revision signature in the request or in the second response, a price-table field, a price table signed by a foreign key, out-of-range / duplicate parameters, deposits beyond the allowance) or replaces it with a recorded message of an earlier exchange; price tables expire by clock jumps; every revision the host persists (recorded at the Contractor interface) is checked against the previously persisted one: strictly higher number, valid renter and host signatures over exactly it, immutable fields, value only moves to the host, constant sum, renter payout lowered by exactly the independently computed price (core's cost functions on the request that reached the host); corrupted requests persist nothing and leave contracts, accounts, pools untouched; renter and host end every exchange on the same revision; the latest revision validates with consensus as a revision of the on-chain element; distinct = abstract trace (op, corruption, outcome); non-trivial = at least one corrupted message",
+		Rule:        "one run = a formed contract and 10-40 renter RPCs (fund accounts, replenish accounts, replenish pools, append, free, sector roots, latest revision) issued by the real client through a typed relay that, for 2 in 5 of them, corrupts one field of a renter->host message (contract id, challenge signature, revision signature in the request or in the second response, a price-table field, a price table signed by a foreign key, out-of-range / duplicate parameters, deposits beyond the allowance) or replaces it with a recorded message of an earlier exchange; price tables expire by clock jumps; 1 run in 4 uses a contract of minimum duration and mines until its proof window opens (every revision persisted from then on is unacceptable to consensus); at 1 step in 8, 2-3 honest RPCs are issued on the same contract at overlapping simulated times, the renter's second message of each held back for a drawn delay, and everything the host tried to persist - in the order it tried, including attempts its contractor refused - goes through the same rules; every revision the host persists (recorded at the Contractor interface) is checked against the previously persisted one: strictly higher number, valid renter and host signatures over exactly it, immutable fields, value only moves to the host, constant sum, renter payout lowered by exactly the independently computed price (core's cost functions on the request that reached the host); corrupted requests persist nothing and leave contracts, accounts, pools untouched; renter and host end every exchange on the same revision; the latest revision validates with consensus as a revision of the on-chain element; distinct = abstract trace (op, corruption, outcome); non-trivial = at least one corrupted message",
 		Real:        []string{"rhp4.Server", "rhp4 RPC* client functions", "wallet.SingleAddressWallet x2", "chain.Manager", "testutil.EphemeralContractor / EphemeralSectorStore behind recording wrappers"},
 		Stub:        []string{"transport: simrhp in-memory streams with typed relay", "disk: simdisk.DB"},
-		Assumptions: []string{"sequential RPCs in this check (the concurrent half needs the lock-yield flavour)", "renew/refresh are exercised by C16", "go.sia.tech/core's price functions define the amount due"},
+		Assumptions: []string{"concurrent RPCs overlap at message boundaries (drawn delays in the relay); interleavings inside a handler between two messages are not enumerated", "renew/refresh are exercised by C16", "go.sia.tech/core's price functions define the amount due"},
 	})
 }
